@@ -5,7 +5,7 @@ sh setup.sh >/dev/null 2>&1
 : > thorough-summary.txt
 for p in "$@"; do
   s=$(date +%s)
-  ./check $p --tier thorough > thorough-$p.log 2>&1
+  timeout 5400 ./check $p --tier thorough > thorough-$p.log 2>&1
   rc=$?
   e=$(date +%s)
   echo "$p exit=$rc secs=$((e-s))" >> thorough-summary.txt
